@@ -391,6 +391,34 @@ def _ctor_params_instantiated(prog, chk, fns):
                 a = SX.real_args(c)
                 if len(a) != 2:
                     continue
+                # a branch chosen by an (inlined) pointer parameter that is bound to an address or to nullptr at this site
+                feasible = True
+                for st in enclosing_stmts(lp['body'], c):
+                    if st.get('k') != 'if':
+                        continue
+                    cnd, pol = SX.strip(st['c']), True
+                    while SX.is_node(cnd) and cnd.get('k') == 'un' and cnd.get('op') == '!':
+                        cnd, pol = SX.strip(cnd['e']), not pol
+                    while SX.is_node(cnd) and cnd.get('k') == 'cast':
+                        cnd = SX.strip(cnd['e'])
+                    if not (SX.is_node(cnd) and cnd.get('k') == 'ref' and '*' in (cnd.get('t') or '')):
+                        continue
+                    d = [x for x in SX.walk(f.body, into_lambdas=False) if x['k'] == 'var' and x['id'] == cnd.get('id')]
+                    i0 = SX.strip(d[0].get('init')) if d and SX.is_node(d[0].get('init')) else None
+                    while SX.is_node(i0) and i0.get('k') in ('cast', 'defaultarg'):
+                        i0 = SX.strip(i0['e'])
+                    val = None
+                    if SX.is_node(i0) and i0.get('k') == 'un' and i0.get('op') == '&':
+                        val = True
+                    if SX.is_node(i0) and i0.get('k') in ('nullptr', 'null'):
+                        val = False
+                    if val is None:
+                        continue
+                    in_then = any(y is c for y in SX.walk(st['t'], into_lambdas=False))
+                    if (val == pol) != in_then:
+                        feasible = False
+                if not feasible:
+                    continue
                 n += 1
                 a0, a1 = SX.strip(a[0]), SX.strip(a[1])
                 ok = False
@@ -423,7 +451,7 @@ def _ctor_params_instantiated(prog, chk, fns):
                     blk, child = chain[depth], chain[depth + 1]
                     if blk.get('k') != 'block':
                         continue
-                    pos = [i for i, x in enumerate(blk['body']) if x is child]
+                    pos = [i for i, x in enumerate(blk['body']) if x is child] or [i for i, x in enumerate(blk['body']) if any(y is child for y in SX.walk(x, into_lambdas=False))]
                     if not pos:
                         continue
                     for st in blk['body'][pos[0] + 1:]:
